@@ -185,7 +185,7 @@ def files():
         for f in fs:
             if f.endswith(".py"):
                 rel = os.path.relpath(os.path.join(root, f), SRC)
-                if rel in SKIP_FILES or f == "__init__.py" and os.path.getsize(os.path.join(root, f)) < 200:
+                if rel in SKIP_FILES or (f == "__init__.py" and rel != "basic/format_float/__init__.py"):
                     continue
                 res.append(rel)
     return sorted(res)
@@ -318,7 +318,8 @@ def baseline():
     w = worktree(99)
     for rel in files():
         p = os.path.join(w, "src/barril", rel)
-        open(p, "w").write(ast.unparse(ast.parse(open(p).read())) + "\n")
+        text = ast.unparse(ast.parse(open(p).read())) + "\n"
+        open(p, "w").write(text)
     print(run_tests(w))
     drop_worktrees()
 
